@@ -88,8 +88,8 @@ def p_expr(n):
         op = n.operator
         if isinstance(op, ast.ComponentRef):
             return "%s(%s)" % (p_ref(op), ", ".join(p_expr(o) for o in n.operands))
-        if op == "der":
-            return "der(%s)" % ", ".join(p_expr(o) for o in n.operands)
+        if op in ("der", "initial"):
+            return "%s(%s)" % (op, ", ".join(p_expr(o) for o in n.operands))
         if op in BINOPS and len(n.operands) == 2:
             return "(%s %s %s)" % (p_expr(n.operands[0]), op, p_expr(n.operands[1]))
         if op in ("-", "+") and len(n.operands) == 1:
